@@ -13,6 +13,13 @@ fn checked_i64(res: Option<i64>, op: BinOp) -> Result<Primitive, OperatorError> 
         .ok_or_else(|| OperatorError::overflow(op, PrimitiveKind::Integer))
 }
 
+/// Narrows an exact result computed in i128 to i64. Sums, differences and products of one i64
+/// and one u64 operand always fit i128, so mixed Integer / PositiveInteger arithmetic goes through
+/// here instead of casting the unsigned operand with `as i64` (which wraps silently from 2^63 on).
+fn narrowed_i64(res: i128, op: BinOp) -> Result<Primitive, OperatorError> {
+    checked_i64(i64::try_from(res).ok(), op)
+}
+
 /// Wraps a checked u64 result, turning overflow (`None`) into an `Overflow` error.
 fn checked_u64(res: Option<u64>, op: BinOp) -> Result<Primitive, OperatorError> {
     res.map(Primitive::PositiveInteger)
@@ -236,9 +243,9 @@ impl ApplyOp for i64 {
                 ),
             },
             Primitive::PositiveInteger(n) => match op {
-                BinOp::Add => checked_i64(self.checked_add(*n as i64), BinOp::Add),
-                BinOp::Sub => checked_i64(self.checked_sub(*n as i64), BinOp::Sub),
-                BinOp::Mul => checked_i64(self.checked_mul(*n as i64), BinOp::Mul),
+                BinOp::Add => narrowed_i64(*self as i128 + *n as i128, BinOp::Add),
+                BinOp::Sub => narrowed_i64(*self as i128 - *n as i128, BinOp::Sub),
+                BinOp::Mul => narrowed_i64(*self as i128 * *n as i128, BinOp::Mul),
                 BinOp::Div => checked_div(*self as f64, *n as f64),
                 op @ (BinOp::And | BinOp::Or | BinOp::Xor | BinOp::Implies | BinOp::Iff) => Err(
                     OperatorError::unsupported_bin_operation(op, PrimitiveKind::Integer),
@@ -298,7 +305,7 @@ impl ApplyOp for u64 {
         match to {
             Primitive::PositiveInteger(n) => match op {
                 BinOp::Add => checked_u64(self.checked_add(*n), BinOp::Add),
-                BinOp::Sub => checked_i64((*self as i64).checked_sub(*n as i64), BinOp::Sub),
+                BinOp::Sub => narrowed_i64(*self as i128 - *n as i128, BinOp::Sub),
                 BinOp::Mul => checked_u64(self.checked_mul(*n), BinOp::Mul),
                 BinOp::Div => checked_div(*self as f64, *n as f64),
                 op @ (BinOp::And | BinOp::Or | BinOp::Xor | BinOp::Implies | BinOp::Iff) => Err(
@@ -306,9 +313,9 @@ impl ApplyOp for u64 {
                 ),
             },
             Primitive::Integer(n) => match op {
-                BinOp::Add => checked_i64((*self as i64).checked_add(*n), BinOp::Add),
-                BinOp::Sub => checked_i64((*self as i64).checked_sub(*n), BinOp::Sub),
-                BinOp::Mul => checked_i64((*self as i64).checked_mul(*n), BinOp::Mul),
+                BinOp::Add => narrowed_i64(*self as i128 + *n as i128, BinOp::Add),
+                BinOp::Sub => narrowed_i64(*self as i128 - *n as i128, BinOp::Sub),
+                BinOp::Mul => narrowed_i64(*self as i128 * *n as i128, BinOp::Mul),
                 BinOp::Div => checked_div(*self as f64, *n as f64),
                 op @ (BinOp::And | BinOp::Or | BinOp::Xor | BinOp::Implies | BinOp::Iff) => Err(
                     OperatorError::unsupported_bin_operation(op, PrimitiveKind::PositiveInteger),
@@ -325,7 +332,7 @@ impl ApplyOp for u64 {
             },
             Primitive::Boolean(n) => match op {
                 BinOp::Add => checked_u64(self.checked_add(*n as u64), BinOp::Add),
-                BinOp::Sub => checked_i64((*self as i64).checked_sub(*n as i64), BinOp::Sub),
+                BinOp::Sub => narrowed_i64(*self as i128 - *n as i128, BinOp::Sub),
                 BinOp::Mul => checked_u64(self.checked_mul(*n as u64), BinOp::Mul),
                 BinOp::Div => checked_div(*self as f64, *n as u8 as f64),
                 op @ (BinOp::And | BinOp::Or | BinOp::Xor | BinOp::Implies | BinOp::Iff) => Err(
